@@ -180,7 +180,7 @@ theorem concat_is_transport : ∃ T : Transport, (∀ s, T.run s = .ok (concatAl
   ⟨Transport.concat, fun _ => rfl, Transport.concat_total⟩
 
 /-- **rechunk-on-save is a transport** on plain streams (one run and data type, targets ≥ 1 row):
-proved from C07's stream theorem `Strax.rechunk_aux` (= `C07.rechunk_stream`); total there -/
+proved from C07's stream theorem `Strax.rechunk_aux` (= `C07.rechunk_stream_partial`); total there -/
 theorem rechunk_is_transport :
     ∃ T : Transport, (∀ s, plainStreamB s = true → T.run s = rechunkAll (-1) ⟨true, false, none⟩ s) ∧
       ∀ s, plainStreamB s = true → ∃ out, T.run s = .ok out :=
